@@ -29,18 +29,31 @@ def keyIn (key : Key) : PairList → Bool
   | .nil => false
   | .cons k _ tl => (keyOf? k == some key) || keyIn key tl
 
-/-- no two entries denote the same Lua key (`1` and `1.0`, `0` and `-0.0` do) -/
+/-- no two entries denote the same Lua key (`1` and `1.0`, `0` and `-0.0` do); keys that
+denote no Lua key (null, NaN) are not constrained here: the conversion refuses them -/
 def keysDistinct : PairList → Bool
   | .nil => true
   | .cons k _ tl => (match keyOf? k with
       | some key => !keyIn key tl
-      | none => false) && keysDistinct tl
+      | none => true) && keysDistinct tl
+
+/-- a map key the property speaks about: a scalar or null (after unwrapping `Some`/newtype) —
+not a sequence, map, byte array or enum variant -/
+def keyAllowed : Data → Bool
+  | .null => true
+  | .bool _ => true
+  | .i64 _ => true
+  | .u64 _ => true
+  | .f64 _ => true
+  | .str _ => true
+  | .some d => keyAllowed d
+  | _ => false
 
 mutual
 /-- `H14 d`: integers are in the range of their Rust type, and in every map (at any depth,
-keys included) each key is a scalar that denotes a Lua key — a string, a boolean or a number
-other than NaN (not null, not a sequence or map; F15) — and no two keys of one map denote the
-same Lua key. -/
+keys included) each key is a scalar or null (not a container), and no two keys of one map
+denote the same Lua key. Null and NaN keys are allowed: since the fix of F15 the conversion
+returns an error for them. -/
 def H14 : Data → Bool
   | .null => true
   | .bool _ => true
@@ -58,7 +71,24 @@ def H14List : DataList → Bool
   | .cons d tl => H14 d && H14List tl
 def H14Pairs : PairList → Bool
   | .nil => true
-  | .cons k v tl => H14 k && H14 v && H14Pairs tl
+  | .cons k v tl => H14 k && keyAllowed k && H14 v && H14Pairs tl
+end
+
+mutual
+/-- every map key (at any depth) denotes a Lua key: none is null or NaN — exactly when the
+conversion succeeds (`toExpr_succeeds`) -/
+def KeysDenote : Data → Bool
+  | .some d => KeysDenote d
+  | .seq xs => KeysDenoteList xs
+  | .map kvs => KeysDenotePairs kvs
+  | .variant _ d => KeysDenote d
+  | _ => true
+def KeysDenoteList : DataList → Bool
+  | .nil => true
+  | .cons d tl => KeysDenote d && KeysDenoteList tl
+def KeysDenotePairs : PairList → Bool
+  | .nil => true
+  | .cons k v tl => (keyOf? k).isSome && KeysDenote k && KeysDenote v && KeysDenotePairs tl
 end
 
 /-! ## association lists -/
@@ -108,13 +138,17 @@ theorem get_set_ne (t : ValMap) (k k' : Key) (v : Val) (h : k ≠ k') :
 
 /-! ## `completeTableEntry` evaluates as one keyed assignment -/
 
-theorem eval_completeTableEntry (ke ve : Expr) (tl : EntryList) (i : Nat) (t : ValMap)
-    (kv : Val) (key : Key) (v : Val)
+theorem isNaN_eq (b : Nat) : isNaN b = isNaNBits b := rfl
+
+theorem eval_completeTableEntry (ke ve : Expr) (tl es : EntryList) (i : Nat) (t : ValMap)
+    (kv : Val) (key : Key) (v : Val) (hc : completeTableEntry ke ve tl = some es)
     (hk : evalExpr ke = .ok kv) (hkey : toKey kv = .ok key) (hv : evalExpr ve = .ok v) :
-    evalEntries (completeTableEntry ke ve tl) i t = evalEntries tl i (t.set key v) := by
-  unfold completeTableEntry
-  split
+    evalEntries es i t = evalEntries tl i (t.set key v) := by
+  unfold completeTableEntry at hc
+  split at hc
   · rename_i s
+    simp only [Option.some.injEq] at hc
+    subst hc
     simp only [evalExpr] at hk
     cases hk
     simp only [toKey] at hkey
@@ -122,8 +156,16 @@ theorem eval_completeTableEntry (ke ve : Expr) (tl : EntryList) (i : Nat) (t : V
     split
     · simp only [evalEntries, hv]
     · simp only [evalEntries, evalExpr, toKey, hv]
-  · simp only [evalEntries, hk, hkey, hv]
-
+  · cases hc
+  · rename_i b
+    split at hc
+    · cases hc
+    · simp only [Option.some.injEq] at hc
+      subst hc
+      simp only [evalEntries, hk, hkey, hv]
+  · simp only [Option.some.injEq] at hc
+    subst hc
+    simp only [evalEntries, hk, hkey, hv]
 
 /-! ## bytes: `string.char(0x.., …)` evaluates to the byte string -/
 
@@ -150,21 +192,32 @@ theorem eval_hexArgs : (bs : Bytes) → evalCharArgs (hexArgs bs) = .ok bs
 
 /-! ## the main induction, relative to the rounding fact `R` (proved in `Rounding.lean`) -/
 
+theorem toKey_num_ok (b : Nat) (h : isNaNBits b = false) : ∃ key, toKey (.num b) = .ok key := by
+  simp only [toKey, isNaN_eq, h]
+  cases f64ToInt? b <;> simp
+
 section
 variable (R : ∀ v : Int, -(2 ^ 64 : Int) < v → v < (2 ^ 64 : Int) → nearestEven v (intToF64 v) = true)
 include R
 
+/-- a key that denotes a Lua key converts, evaluates to that key, and is accepted by
+`completeTableEntry` -/
 theorem key_denotes : (k : Data) → (key : Key) → H14 k = true → keyOf? k = some key →
-    ∃ kv, evalExpr (toExpr k) = .ok kv ∧ toKey kv = .ok key ∧ KeyEq k key
+    ∃ ke kv, toExpr k = some ke ∧ evalExpr ke = .ok kv ∧ toKey kv = .ok key ∧ KeyEq k key ∧
+      ∀ ve tl, ∃ es, completeTableEntry ke ve tl = some es
   | .str s, key, _, h => by
     simp only [keyOf?, Option.some.injEq] at h
     subst h
-    exact ⟨.str s, by simp [toExpr, evalExpr], by simp [toKey], by simp [KeyEq]⟩
+    exact ⟨.str s, .str s, by simp [toExpr], by simp [evalExpr], by simp [toKey], by simp [KeyEq],
+      fun _ _ => ⟨_, rfl⟩⟩
   | .bool b, key, _, h => by
     simp only [keyOf?, Option.some.injEq] at h
     subst h
-    refine ⟨.bool b, ?_, by simp [toKey], by simp [KeyEq]⟩
-    cases b <;> simp [toExpr, evalExpr]
+    cases b
+    · exact ⟨.false, .bool false, by simp [toExpr], by simp [evalExpr], by simp [toKey],
+        by simp [KeyEq], fun _ _ => ⟨_, rfl⟩⟩
+    · exact ⟨.true, .bool true, by simp [toExpr], by simp [evalExpr], by simp [toKey],
+        by simp [KeyEq], fun _ _ => ⟨_, rfl⟩⟩
   | .i64 v, key, hH, h => by
     simp only [H14, Bool.and_eq_true, decide_eq_true_eq] at hH
     simp only [keyOf?] at h
@@ -173,8 +226,13 @@ theorem key_denotes : (k : Data) → (key : Key) → H14 k = true → keyOf? k =
     | ok k' =>
       simp only [hk, Option.some.injEq] at h
       subst h
-      refine ⟨.num (intToF64 v), by simp [toExpr, evalExpr], hk, ?_⟩
-      exact ⟨intToF64 v, R v (by omega) (by omega), hk⟩
+      have hn : isNaNBits (intToF64 v) = false := by
+        cases hb : isNaNBits (intToF64 v) with
+        | false => rfl
+        | true => simp [toKey, isNaN_eq, hb] at hk
+      refine ⟨.num (intToF64 v), .num (intToF64 v), by simp [toExpr], by simp [evalExpr], hk,
+        ⟨intToF64 v, R v (by omega) (by omega), hk⟩, fun ve tl => ⟨.keyed (.num (intToF64 v)) ve tl, ?_⟩⟩
+      simp [completeTableEntry, hn]
   | .u64 v, key, hH, h => by
     simp only [H14, decide_eq_true_eq] at hH
     simp only [keyOf?] at h
@@ -183,12 +241,15 @@ theorem key_denotes : (k : Data) → (key : Key) → H14 k = true → keyOf? k =
     | ok k' =>
       simp only [hk, Option.some.injEq] at h
       subst h
-      refine ⟨.num (intToF64 (v : Int)), by simp [toExpr, evalExpr], hk, ?_⟩
-      refine ⟨intToF64 (v : Int), R _ ?_ ?_, hk⟩
-      · have : (0 : Int) ≤ (v : Int) := Int.natCast_nonneg _
-        omega
-      · show (v : Int) < 2 ^ 64
-        omega
+      have hn : isNaNBits (intToF64 (v : Int)) = false := by
+        cases hb : isNaNBits (intToF64 (v : Int)) with
+        | false => rfl
+        | true => simp [toKey, isNaN_eq, hb] at hk
+      have h0 : (0 : Int) ≤ (v : Int) := Int.natCast_nonneg _
+      refine ⟨.num (intToF64 (v : Int)), .num (intToF64 (v : Int)), by simp [toExpr],
+        by simp [evalExpr], hk, ⟨intToF64 (v : Int), R _ (by omega) (by omega), hk⟩,
+        fun ve tl => ⟨.keyed (.num (intToF64 (v : Int))) ve tl, ?_⟩⟩
+      simp [completeTableEntry, hn]
   | .f64 b, key, _, h => by
     simp only [keyOf?] at h
     cases hk : toKey (.num b) with
@@ -196,17 +257,70 @@ theorem key_denotes : (k : Data) → (key : Key) → H14 k = true → keyOf? k =
     | ok k' =>
       simp only [hk, Option.some.injEq] at h
       subst h
-      exact ⟨.num b, by simp [toExpr, evalExpr], hk, hk⟩
+      have hn : isNaNBits b = false := by
+        cases hb : isNaNBits b with
+        | false => rfl
+        | true => simp [toKey, isNaN_eq, hb] at hk
+      refine ⟨.num b, .num b, by simp [toExpr], by simp [evalExpr], hk, hk,
+        fun ve tl => ⟨.keyed (.num b) ve tl, ?_⟩⟩
+      simp [completeTableEntry, hn]
   | .some d, key, hH, h => by
     simp only [H14] at hH
     simp only [keyOf?] at h
-    obtain ⟨kv, h1, h2, h3⟩ := key_denotes d key hH h
-    exact ⟨kv, by simpa [toExpr] using h1, h2, by simpa [KeyEq] using h3⟩
+    obtain ⟨ke, kv, h0, h1, h2, h3, h4⟩ := key_denotes d key hH h
+    exact ⟨ke, kv, by simpa [toExpr] using h0, h1, h2, by simpa [KeyEq] using h3, h4⟩
   | .null, _, _, h => by simp [keyOf?] at h
   | .bytes _, _, _, h => by simp [keyOf?] at h
   | .seq _, _, _, h => by simp [keyOf?] at h
   | .map _, _, _, h => by simp [keyOf?] at h
   | .variant _ _, _, _, h => by simp [keyOf?] at h
+
+omit R in
+/-- an allowed key whose entry the serializer accepted denotes a Lua key -/
+theorem keyOf_of_accepted : (k : Data) → keyAllowed k = true → (ke ve : Expr) → (tl es : EntryList) →
+    toExpr k = some ke → completeTableEntry ke ve tl = some es → ∃ key, keyOf? k = some key
+  | .str s, _, _, _, _, _, _, _ => ⟨.str s, by simp [keyOf?]⟩
+  | .bool b, _, _, _, _, _, _, _ => ⟨.bool b, by simp [keyOf?]⟩
+  | .i64 v, _, ke, ve, tl, es, hk, hc => by
+    simp only [toExpr, Option.some.injEq] at hk
+    subst hk
+    simp only [completeTableEntry] at hc
+    cases hb : isNaNBits (intToF64 v) with
+    | true => simp [hb] at hc
+    | false =>
+      obtain ⟨key, h⟩ := toKey_num_ok _ hb
+      exact ⟨key, by simp [keyOf?, h]⟩
+  | .u64 v, _, ke, ve, tl, es, hk, hc => by
+    simp only [toExpr, Option.some.injEq] at hk
+    subst hk
+    simp only [completeTableEntry] at hc
+    cases hb : isNaNBits (intToF64 (v : Int)) with
+    | true => simp [hb] at hc
+    | false =>
+      obtain ⟨key, h⟩ := toKey_num_ok _ hb
+      exact ⟨key, by simp [keyOf?, h]⟩
+  | .f64 b, _, ke, ve, tl, es, hk, hc => by
+    simp only [toExpr, Option.some.injEq] at hk
+    subst hk
+    simp only [completeTableEntry] at hc
+    cases hb : isNaNBits b with
+    | true => simp [hb] at hc
+    | false =>
+      obtain ⟨key, h⟩ := toKey_num_ok _ hb
+      exact ⟨key, by simp [keyOf?, h]⟩
+  | .null, _, ke, ve, tl, es, hk, hc => by
+    simp only [toExpr, Option.some.injEq] at hk
+    subst hk
+    simp [completeTableEntry] at hc
+  | .some d, hA, ke, ve, tl, es, hk, hc => by
+    simp only [keyAllowed] at hA
+    simp only [toExpr] at hk
+    obtain ⟨key, h⟩ := keyOf_of_accepted d hA ke ve tl es hk hc
+    exact ⟨key, by simpa [keyOf?] using h⟩
+  | .bytes _, hA, _, _, _, _, _, _ => by simp [keyAllowed] at hA
+  | .seq _, hA, _, _, _, _, _, _ => by simp [keyAllowed] at hA
+  | .map _, hA, _, _, _, _, _, _ => by simp [keyAllowed] at hA
+  | .variant _ _, hA, _, _, _, _, _, _ => by simp [keyAllowed] at hA
 
 theorem hasKey_of_keyIn : (kvs : PairList) → (key : Key) → H14Pairs kvs = true →
     keyIn key kvs = true → HasKey kvs key
@@ -216,130 +330,232 @@ theorem hasKey_of_keyIn : (kvs : PairList) → (key : Key) → H14Pairs kvs = tr
     simp only [keyIn, Bool.or_eq_true, beq_iff_eq] at h
     cases h with
     | inl h =>
-      obtain ⟨_, _, _, h3⟩ := key_denotes R k key hH.1.1 h
+      obtain ⟨_, _, _, _, _, h3, _⟩ := key_denotes R k key hH.1.1.1 h
       exact Or.inl h3
     | inr h => exact Or.inr (hasKey_of_keyIn tl key hH.2 h)
 
 set_option linter.unusedSectionVars false in
 mutual
-theorem denotes : (d : Data) → H14 d = true → ∃ v, evalExpr (toExpr d) = .ok v ∧ DataEq d v
-  | .null, _ => ⟨.nil, by simp [toExpr, evalExpr], by simp [DataEq]⟩
-  | .bool b, _ => by
+theorem denotes : (d : Data) → H14 d = true → (e : Expr) → toExpr d = some e →
+    ∃ v, evalExpr e = .ok v ∧ DataEq d v
+  | .null, _, e, he => by
+    simp only [toExpr, Option.some.injEq] at he; subst he
+    exact ⟨.nil, by simp [evalExpr], by simp [DataEq]⟩
+  | .bool b, _, e, he => by
+    simp only [toExpr, Option.some.injEq] at he; subst he
     refine ⟨.bool b, ?_, by simp [DataEq]⟩
-    cases b <;> simp [toExpr, evalExpr]
-  | .i64 v, hH => by
+    cases b <;> simp [evalExpr]
+  | .i64 v, hH, e, he => by
+    simp only [toExpr, Option.some.injEq] at he; subst he
     simp only [H14, Bool.and_eq_true, decide_eq_true_eq] at hH
-    refine ⟨.num (intToF64 v), by simp [toExpr, evalExpr], ?_⟩
-    exact ⟨intToF64 v, rfl, R v (by omega) (by omega)⟩
-  | .u64 v, hH => by
+    exact ⟨.num (intToF64 v), by simp [evalExpr], intToF64 v, rfl, R v (by omega) (by omega)⟩
+  | .u64 v, hH, e, he => by
+    simp only [toExpr, Option.some.injEq] at he; subst he
     simp only [H14, decide_eq_true_eq] at hH
-    refine ⟨.num (intToF64 (v : Int)), by simp [toExpr, evalExpr], ?_⟩
-    refine ⟨intToF64 (v : Int), rfl, R _ ?_ ?_⟩
-    · have : (0 : Int) ≤ (v : Int) := Int.natCast_nonneg _
-      omega
-    · show (v : Int) < 2 ^ 64
-      omega
-  | .f64 b, _ => ⟨.num b, by simp [toExpr, evalExpr], by simp [DataEq]⟩
-  | .str s, _ => ⟨.str s, by simp [toExpr, evalExpr], by simp [DataEq]⟩
-  | .bytes bs, _ => by
+    have h0 : (0 : Int) ≤ (v : Int) := Int.natCast_nonneg _
+    exact ⟨.num (intToF64 (v : Int)), by simp [evalExpr], intToF64 (v : Int), rfl,
+      R _ (by omega) (by omega)⟩
+  | .f64 b, _, e, he => by
+    simp only [toExpr, Option.some.injEq] at he; subst he
+    exact ⟨.num b, by simp [evalExpr], by simp [DataEq]⟩
+  | .str s, _, e, he => by
+    simp only [toExpr, Option.some.injEq] at he; subst he
+    exact ⟨.str s, by simp [evalExpr], by simp [DataEq]⟩
+  | .bytes bs, _, e, he => by
+    simp only [toExpr, Option.some.injEq] at he; subst he
     refine ⟨.str bs, ?_, by simp [DataEq]⟩
     have : isStringChar (.field (.var bSTRING) bCHAR) = true := by decide
-    simp only [toExpr, evalExpr, this, if_true, eval_hexArgs]
-  | .some d, hH => by
+    simp only [evalExpr, this, if_true, eval_hexArgs]
+  | .some d, hH, e, he => by
     simp only [H14] at hH
-    obtain ⟨v, h1, h2⟩ := denotes d hH
-    exact ⟨v, by simpa [toExpr] using h1, by simpa [DataEq] using h2⟩
-  | .seq xs, hH => by
+    simp only [toExpr] at he
+    obtain ⟨v, h1, h2⟩ := denotes d hH e he
+    exact ⟨v, h1, by simpa [DataEq] using h2⟩
+  | .seq xs, hH, e, he => by
     simp only [H14] at hH
-    obtain ⟨t, h1, h2, h3⟩ := denotesSeq xs hH 1 .nil
-    refine ⟨.table t, by simp only [toExpr, evalExpr, h1], ?_⟩
-    refine ⟨t, rfl, h2, ?_⟩
-    intro key hne
-    apply Classical.byContradiction
-    intro hcon
-    apply hne
-    rw [h3 key]
-    · simp [ValMap.get]
-    · intro j hj1 hj2 hk
-      exact hcon ⟨j, hk, hj1, by omega⟩
-  | .map kvs, hH => by
-    simp only [H14, Bool.and_eq_true] at hH
-    obtain ⟨t, h1, h2, h3⟩ := denotesPairs kvs hH.1 hH.2 1 .nil
-    refine ⟨.table t, by simp only [toExpr, evalExpr, h1], ?_⟩
-    refine ⟨t, rfl, h2, ?_⟩
-    intro key hne
-    cases hin : keyIn key kvs with
-    | true => exact hasKey_of_keyIn R kvs key hH.1 hin
-    | false =>
-      exfalso
+    simp only [toExpr] at he
+    cases hs : seqEntries xs with
+    | none => simp [hs] at he
+    | some es =>
+      simp only [hs, Option.some.injEq] at he; subst he
+      obtain ⟨t, h1, h2, h3⟩ := denotesSeq xs hH es hs 1 .nil
+      refine ⟨.table t, by simp only [evalExpr, h1], t, rfl, h2, ?_⟩
+      intro key hne
+      apply Classical.byContradiction
+      intro hcon
       apply hne
-      rw [h3 key hin]
-      simp [ValMap.get]
-  | .variant name d, hH => by
-    simp only [H14] at hH
-    obtain ⟨v, h1, h2⟩ := denotes d hH
-    refine ⟨.table ((ValMap.nil).set (.str name) v), ?_, ?_⟩
-    · have := eval_completeTableEntry (.str name) (toExpr d) .nil 1 .nil (.str name) (.str name) v
-        (by simp [evalExpr]) (by simp [toKey]) h1
-      simp only [toExpr, evalExpr, this, evalEntries]
-    · refine ⟨_, rfl, ?_, ?_⟩
-      · rw [get_set_self]; exact h2
-      · intro key hne
-        apply Classical.byContradiction
-        intro hcon
+      rw [h3 key]
+      · simp [ValMap.get]
+      · intro j hj1 hj2 hk
+        exact hcon ⟨j, hk, hj1, by omega⟩
+  | .map kvs, hH, e, he => by
+    simp only [H14, Bool.and_eq_true] at hH
+    simp only [toExpr] at he
+    cases hs : mapEntries kvs with
+    | none => simp [hs] at he
+    | some es =>
+      simp only [hs, Option.some.injEq] at he; subst he
+      obtain ⟨t, h1, h2, h3⟩ := denotesPairs kvs hH.1 hH.2 es hs 1 .nil
+      refine ⟨.table t, by simp only [evalExpr, h1], t, rfl, h2, ?_⟩
+      intro key hne
+      cases hin : keyIn key kvs with
+      | true => exact hasKey_of_keyIn R kvs key hH.1 hin
+      | false =>
+        exfalso
         apply hne
-        rw [get_set_ne _ _ _ _ (fun e => hcon e.symm)]
+        rw [h3 key hin]
         simp [ValMap.get]
-theorem denotesSeq : (xs : DataList) → H14List xs = true → (i : Nat) → (t0 : ValMap) →
-    ∃ t, evalEntries (seqEntries xs) i t0 = .ok t ∧ SeqEq xs i t ∧
+  | .variant name d, hH, e, he => by
+    simp only [H14] at hH
+    simp only [toExpr] at he
+    cases hd : toExpr d with
+    | none => simp [hd] at he
+    | some ve =>
+      cases hc : completeTableEntry (.str name) ve .nil with
+      | none => simp [hd, hc] at he
+      | some es =>
+        simp only [hd, hc, Option.some.injEq] at he; subst he
+        obtain ⟨v, h1, h2⟩ := denotes d hH ve hd
+        refine ⟨.table ((ValMap.nil).set (.str name) v), ?_, ?_⟩
+        · have := eval_completeTableEntry (.str name) ve .nil es 1 .nil (.str name) (.str name) v hc
+            (by simp [evalExpr]) (by simp [toKey]) h1
+          simp only [evalExpr, this, evalEntries]
+        · refine ⟨_, rfl, ?_, ?_⟩
+          · rw [get_set_self]; exact h2
+          · intro key hne
+            apply Classical.byContradiction
+            intro hcon
+            apply hne
+            rw [get_set_ne _ _ _ _ (fun e => hcon e.symm)]
+            simp [ValMap.get]
+theorem denotesSeq : (xs : DataList) → H14List xs = true → (es : EntryList) →
+    seqEntries xs = some es → (i : Nat) → (t0 : ValMap) →
+    ∃ t, evalEntries es i t0 = .ok t ∧ SeqEq xs i t ∧
       ∀ key, (∀ j : Nat, i ≤ j → j < i + seqLen xs → key ≠ .int (j : Int)) →
         t.get key = t0.get key
-  | .nil, _, i, t0 => ⟨t0, by simp [seqEntries, evalEntries], by simp [SeqEq], fun _ _ => rfl⟩
-  | .cons d tl, hH, i, t0 => by
+  | .nil, _, es, hs, i, t0 => by
+    simp only [seqEntries, Option.some.injEq] at hs; subst hs
+    exact ⟨t0, by simp [evalEntries], by simp [SeqEq], fun _ _ => rfl⟩
+  | .cons d tl, hH, es, hs, i, t0 => by
     simp only [H14List, Bool.and_eq_true] at hH
-    obtain ⟨v, h1, h2⟩ := denotes d hH.1
-    obtain ⟨t, g1, g2, g3⟩ := denotesSeq tl hH.2 (i + 1) (t0.set (.int (i : Int)) v)
-    refine ⟨t, by simp only [seqEntries, evalEntries, h1, g1], ?_, ?_⟩
-    · refine ⟨?_, g2⟩
-      rw [g3]
-      · rw [get_set_self]; exact h2
-      · intro j hj1 _ hk
-        simp only [Key.int.injEq] at hk
-        omega
-    · intro key hkey
-      rw [g3 key]
-      · apply get_set_ne
-        intro e
-        exact hkey i (Nat.le_refl _) (by simp only [seqLen]; omega) e.symm
-      · intro j hj1 hj2
-        exact hkey j (by omega) (by simp only [seqLen]; omega)
+    cases hd : toExpr d with
+    | none => simp [seqEntries, hd] at hs
+    | some e =>
+      cases ht : seqEntries tl with
+      | none => simp [seqEntries, hd, ht] at hs
+      | some es' =>
+        simp only [seqEntries, hd, ht, Option.some.injEq] at hs; subst hs
+        obtain ⟨v, h1, h2⟩ := denotes d hH.1 e hd
+        obtain ⟨t, g1, g2, g3⟩ := denotesSeq tl hH.2 es' ht (i + 1) (t0.set (.int (i : Int)) v)
+        refine ⟨t, by simp only [evalEntries, h1, g1], ?_, ?_⟩
+        · refine ⟨?_, g2⟩
+          rw [g3]
+          · rw [get_set_self]; exact h2
+          · intro j hj1 _ hk
+            simp only [Key.int.injEq] at hk
+            omega
+        · intro key hkey
+          rw [g3 key]
+          · apply get_set_ne
+            intro e
+            exact hkey i (Nat.le_refl _) (by simp only [seqLen]; omega) e.symm
+          · intro j hj1 hj2
+            exact hkey j (by omega) (by simp only [seqLen]; omega)
 theorem denotesPairs : (kvs : PairList) → H14Pairs kvs = true → keysDistinct kvs = true →
-    (i : Nat) → (t0 : ValMap) →
-    ∃ t, evalEntries (mapEntries kvs) i t0 = .ok t ∧ MapEq kvs t ∧
+    (es : EntryList) → mapEntries kvs = some es → (i : Nat) → (t0 : ValMap) →
+    ∃ t, evalEntries es i t0 = .ok t ∧ MapEq kvs t ∧
       ∀ key, keyIn key kvs = false → t.get key = t0.get key
-  | .nil, _, _, i, t0 => ⟨t0, by simp [mapEntries, evalEntries], by simp [MapEq], fun _ _ => rfl⟩
-  | .cons k v tl, hH, hD, i, t0 => by
+  | .nil, _, _, es, hs, i, t0 => by
+    simp only [mapEntries, Option.some.injEq] at hs; subst hs
+    exact ⟨t0, by simp [evalEntries], by simp [MapEq], fun _ _ => rfl⟩
+  | .cons k v tl, hH, hD, es, hs, i, t0 => by
     simp only [H14Pairs, Bool.and_eq_true] at hH
     simp only [keysDistinct, Bool.and_eq_true] at hD
-    cases hk : keyOf? k with
-    | none => simp [hk] at hD
-    | some key =>
-      simp only [hk, Bool.not_eq_true'] at hD
-      obtain ⟨kv, k1, k2, k3⟩ := key_denotes R k key hH.1.1 hk
-      obtain ⟨val, h1, h2⟩ := denotes v hH.1.2
-      obtain ⟨t, g1, g2, g3⟩ := denotesPairs tl hH.2 hD.2 i (t0.set key val)
-      refine ⟨t, ?_, ?_, ?_⟩
-      · simp only [mapEntries]
-        rw [eval_completeTableEntry (toExpr k) (toExpr v) (mapEntries tl) i t0 kv key val k1 k2 h1]
-        exact g1
-      · refine ⟨⟨key, k3, ?_⟩, g2⟩
-        rw [g3 key hD.1, get_set_self]
-        exact h2
-      · intro key' hkey'
-        simp only [keyIn, Bool.or_eq_false_iff, hk, beq_eq_false_iff_ne, ne_eq,
-          Option.some.injEq] at hkey'
-        rw [g3 key' hkey'.2]
-        exact get_set_ne _ _ _ _ hkey'.1
+    cases hke : toExpr k with
+    | none => simp [mapEntries, hke] at hs
+    | some ke =>
+      cases hve : toExpr v with
+      | none => simp [mapEntries, hke, hve] at hs
+      | some ve =>
+        cases ht : mapEntries tl with
+        | none => simp [mapEntries, hke, hve, ht] at hs
+        | some es' =>
+          simp only [mapEntries, hke, hve, ht] at hs
+          obtain ⟨key, hk⟩ := keyOf_of_accepted k hH.1.1.2 ke ve es' es hke hs
+          simp only [hk, Bool.not_eq_true'] at hD
+          obtain ⟨ke', kv, k0, k1, k2, k3, _⟩ := key_denotes R k key hH.1.1.1 hk
+          rw [hke] at k0
+          simp only [Option.some.injEq] at k0
+          subst k0
+          obtain ⟨val, h1, h2⟩ := denotes v hH.1.2 ve hve
+          obtain ⟨t, g1, g2, g3⟩ := denotesPairs tl hH.2 hD.2 es' ht i (t0.set key val)
+          refine ⟨t, ?_, ?_, ?_⟩
+          · rw [eval_completeTableEntry ke ve es' es i t0 kv key val hs k1 k2 h1]
+            exact g1
+          · refine ⟨⟨key, k3, ?_⟩, g2⟩
+            rw [g3 key hD.1, get_set_self]
+            exact h2
+          · intro key' hkey'
+            simp only [keyIn, Bool.or_eq_false_iff, hk, beq_eq_false_iff_ne, ne_eq,
+              Option.some.injEq] at hkey'
+            rw [g3 key' hkey'.2]
+            exact get_set_ne _ _ _ _ hkey'.1
+end
+
+/-! ## the conversion succeeds exactly when every key denotes a Lua key -/
+
+set_option linter.unusedSectionVars false in
+mutual
+theorem toExpr_succeeds : (d : Data) → H14 d = true → KeysDenote d = true → ∃ e, toExpr d = some e
+  | .null, _, _ => ⟨_, rfl⟩
+  | .bool _, _, _ => ⟨_, rfl⟩
+  | .i64 _, _, _ => ⟨_, rfl⟩
+  | .u64 _, _, _ => ⟨_, rfl⟩
+  | .f64 _, _, _ => ⟨_, rfl⟩
+  | .str _, _, _ => ⟨_, rfl⟩
+  | .bytes _, _, _ => ⟨_, rfl⟩
+  | .some d, hH, hK => by
+    simp only [H14] at hH
+    simp only [KeysDenote] at hK
+    obtain ⟨e, h⟩ := toExpr_succeeds d hH hK
+    exact ⟨e, by simpa [toExpr] using h⟩
+  | .seq xs, hH, hK => by
+    simp only [H14] at hH
+    simp only [KeysDenote] at hK
+    obtain ⟨es, h⟩ := seqEntries_succeeds xs hH hK
+    exact ⟨.table es, by simp [toExpr, h]⟩
+  | .map kvs, hH, hK => by
+    simp only [H14, Bool.and_eq_true] at hH
+    simp only [KeysDenote] at hK
+    obtain ⟨es, h⟩ := mapEntries_succeeds kvs hH.1 hK
+    exact ⟨.table es, by simp [toExpr, h]⟩
+  | .variant name d, hH, hK => by
+    simp only [H14] at hH
+    simp only [KeysDenote] at hK
+    obtain ⟨e, h⟩ := toExpr_succeeds d hH hK
+    refine ⟨.table (if isValidIdentifier name then .named name e .nil else .keyed (.str name) e .nil), ?_⟩
+    simp only [toExpr, h, completeTableEntry]
+theorem seqEntries_succeeds : (xs : DataList) → H14List xs = true → KeysDenoteList xs = true →
+    ∃ es, seqEntries xs = some es
+  | .nil, _, _ => ⟨.nil, rfl⟩
+  | .cons d tl, hH, hK => by
+    simp only [H14List, Bool.and_eq_true] at hH
+    simp only [KeysDenoteList, Bool.and_eq_true] at hK
+    obtain ⟨e, h1⟩ := toExpr_succeeds d hH.1 hK.1
+    obtain ⟨es, h2⟩ := seqEntries_succeeds tl hH.2 hK.2
+    exact ⟨.pos e es, by simp only [seqEntries, h1, h2]⟩
+theorem mapEntries_succeeds : (kvs : PairList) → H14Pairs kvs = true → KeysDenotePairs kvs = true →
+    ∃ es, mapEntries kvs = some es
+  | .nil, _, _ => ⟨.nil, rfl⟩
+  | .cons k v tl, hH, hK => by
+    simp only [H14Pairs, Bool.and_eq_true] at hH
+    simp only [KeysDenotePairs, Bool.and_eq_true, Option.isSome_iff_exists] at hK
+    obtain ⟨key, hk⟩ := hK.1.1.1
+    obtain ⟨ke, _, k0, _, _, _, k4⟩ := key_denotes R k key hH.1.1.1 hk
+    obtain ⟨ve, h1⟩ := toExpr_succeeds v hH.1.2 hK.1.2
+    obtain ⟨es', h2⟩ := mapEntries_succeeds tl hH.2 hK.2
+    obtain ⟨es, h3⟩ := k4 ve es'
+    exact ⟨es, by simp only [mapEntries, k0, h1, h2, h3]⟩
 end
 
 end
@@ -438,9 +654,55 @@ theorem H14_of_jsonLikePairs : (kvs : PairList) → JsonLikePairs kvs = true →
     simp only [JsonLikePairs, Bool.and_eq_true, Bool.not_eq_true'] at h
     obtain ⟨i1, i2⟩ := H14_of_jsonLikePairs tl h.2
     have hv := H14_of_jsonLike v h.1.2
-    simp only [H14Pairs, keysDistinct, keyOf?, H14, hk, h.1.1, hv, i1, i2, Bool.not_false,
+    simp only [H14Pairs, keysDistinct, keyOf?, keyAllowed, H14, hk, h.1.1, hv, i1, i2, Bool.not_false,
       Bool.and_self]
     simp
+  | .cons .null _ _, h => by simp [JsonLikePairs] at h
+  | .cons (.bool _) _ _, h => by simp [JsonLikePairs] at h
+  | .cons (.i64 _) _ _, h => by simp [JsonLikePairs] at h
+  | .cons (.u64 _) _ _, h => by simp [JsonLikePairs] at h
+  | .cons (.f64 _) _ _, h => by simp [JsonLikePairs] at h
+  | .cons (.bytes _) _ _, h => by simp [JsonLikePairs] at h
+  | .cons (.some _) _ _, h => by simp [JsonLikePairs] at h
+  | .cons (.seq _) _ _, h => by simp [JsonLikePairs] at h
+  | .cons (.map _) _ _, h => by simp [JsonLikePairs] at h
+  | .cons (.variant _ _) _ _, h => by simp [JsonLikePairs] at h
+end
+
+mutual
+theorem keysDenote_of_jsonLike : (d : Data) → JsonLike d = true → KeysDenote d = true
+  | .null, _ => by simp [KeysDenote]
+  | .bool _, _ => by simp [KeysDenote]
+  | .i64 _, _ => by simp [KeysDenote]
+  | .u64 _, _ => by simp [KeysDenote]
+  | .f64 _, _ => by simp [KeysDenote]
+  | .str _, _ => by simp [KeysDenote]
+  | .seq xs, h => by
+    simp only [JsonLike] at h
+    simp only [KeysDenote]
+    exact keysDenote_of_jsonLikeList xs h
+  | .map kvs, h => by
+    simp only [JsonLike] at h
+    simp only [KeysDenote]
+    exact keysDenote_of_jsonLikePairs kvs h
+  | .bytes _, h => by simp [JsonLike] at h
+  | .some _, h => by simp [JsonLike] at h
+  | .variant _ _, h => by simp [JsonLike] at h
+theorem keysDenote_of_jsonLikeList : (xs : DataList) → JsonLikeList xs = true →
+    KeysDenoteList xs = true
+  | .nil, _ => by simp [KeysDenoteList]
+  | .cons d tl, h => by
+    simp only [JsonLikeList, Bool.and_eq_true] at h
+    simp only [KeysDenoteList, Bool.and_eq_true]
+    exact ⟨keysDenote_of_jsonLike d h.1, keysDenote_of_jsonLikeList tl h.2⟩
+theorem keysDenote_of_jsonLikePairs : (kvs : PairList) → JsonLikePairs kvs = true →
+    KeysDenotePairs kvs = true
+  | .nil, _ => by simp [KeysDenotePairs]
+  | .cons (.str s) v tl, h => by
+    simp only [JsonLikePairs, Bool.and_eq_true] at h
+    simp only [KeysDenotePairs, keyOf?, KeysDenote, Option.isSome_some, Bool.true_and,
+      Bool.and_eq_true]
+    exact ⟨keysDenote_of_jsonLike v h.1.2, keysDenote_of_jsonLikePairs tl h.2⟩
   | .cons .null _ _, h => by simp [JsonLikePairs] at h
   | .cons (.bool _) _ _, h => by simp [JsonLikePairs] at h
   | .cons (.i64 _) _ _, h => by simp [JsonLikePairs] at h
